@@ -152,7 +152,14 @@ func TestC16MuxerInputs(t *testing.T) {
 				if op.af != nil {
 					d.AdaptationField = conv.AFStruct(op.af, false)
 				}
-				payload := d.PES.Data
+				// the payload is a sub-slice of a larger buffer: the bytes after it are the caller's too
+				big := make([]byte, len(d.PES.Data)+48)
+				copy(big, d.PES.Data)
+				for k := len(d.PES.Data); k < len(big); k++ {
+					big[k] = byte(0x30 + k%7)
+				}
+				d.PES.Data = big[:len(d.PES.Data)]
+				payload := big
 				var priv, ext2, afpriv []byte
 				if oh := d.PES.Header.OptionalHeader; oh != nil {
 					priv, ext2 = oh.PrivateData, oh.Extension2Data
@@ -178,7 +185,15 @@ func TestC16MuxerInputs(t *testing.T) {
 				if p.AdaptationField != nil {
 					afpriv = p.AdaptationField.TransportPrivateData
 				}
-				pl := p.Payload
+				// same for WritePacket: a payload shorter than the room left is padded by the writer, which must not happen in
+				// the caller's spare capacity
+				bigp := make([]byte, len(p.Payload)+48)
+				copy(bigp, p.Payload)
+				for k := len(p.Payload); k < len(bigp); k++ {
+					bigp[k] = byte(0x40 + k%5)
+				}
+				p.Payload = bigp[:len(p.Payload)]
+				pl := bigp
 				render := func() string { return fmt.Sprintf("%x|%x", pl, afpriv) }
 				orig := render()
 				_, _ = m.WritePacket(p)
